@@ -7,7 +7,7 @@ COMMON_ASSUMPTIONS = {
     'trusted_base': [
         'pyvc: the home-made AST->z3 VC generator in /verif/pyvc (guarded by canaries, native cross-check and mutation smoke test; not itself verified)',
         'z3 5.1.0 (python API) as primary solver; /usr/bin/z3 4.8.12 and cvc5 1.0.3 accepted for `unsat` only',
-        'Lean 4.33.0 + Mathlib for bridge lemmas; the correspondence between a z3 postcondition and the Lean hypothesis structure is by inspection (DESIGN 3.6)',
+        'Lean 4.33.0 + Mathlib for bridge lemmas. For reverse, remove_epsilon_transitions and is_empty the Lean hypothesis is GENERATED from the contract object (tools/render_lean.py -> bridge/Link.lean, adapters proved in Lean); for the other bridged functions (subset construction, product, complement, accepts) the correspondence between the z3 postcondition and the Lean structure is by inspection',
         'closure-induction schema instances named in contracts (sound for least fixpoints; theorems on the Lean side)',
     ],
     'assumptions': [
@@ -38,7 +38,7 @@ PROPS['C01'] = dict(
             'ENFA.__call__', 'ENFA.is_final_state', 'ENFA.add_symbol', 'DFA.add_start_state', 'DFA.remove_start_state', 'NFA.add_transition')
          + [('contracts.fa_namer', 'NamerC._get')]
          + [('contracts.fa_concrete', k) for k in ('NTF.add_transition', 'NTF.remove_transition', 'NTF.__call__', 'NTF.is_deterministic', 'DTF.add_transition', 'DTF.remove_transition', 'DTF.__call__')],
-    lean=['bridge/run.lean', 'bridge/runn.lean', 'bridge/epsrem.lean', 'bridge/detsim.lean'],
+    lean=['bridge/run.lean', 'bridge/runn.lean', 'bridge/epsrem.lean', 'bridge/detsim.lean', 'bridge/Link.lean'],
     bounded='bounded.c01', replayer='bounded.replay_fa',
     bounded_only=['DeterministicFiniteAutomaton.minimize', 'DeterministicFiniteAutomaton._get_partition', 'Partition/HopcroftProcessingList (Hopcroft refinement: numpy object arrays + intrusive linked lists)'],
     explanation=('mixed: the functions listed under functions_proved are verified deductively from their current source against sidecar contracts '
@@ -75,7 +75,7 @@ PROPS['C03'] = dict(
                 'equivalence oracle. Mixed, hence level other.'),
     level_note='Trusted: VC generator, z3, Lean+Mathlib, by-inspection match of postconditions and Lean structures, premises #pair_injective and trash-state freshness (see known findings), value/ownership assumptions; bounded part: reference semantics.',
     pyvc=fa('ENFA.get_intersection', 'ENFA.get_complement', 'ENFA.get_difference', 'ENFA.reverse', 'ENFA.copy', 'DFA.copy', 'ENFA.to_deterministic', 'ENFA._to_deterministic_internal', 'ENFA.eclose_iterable', 'ENFA.eclose') + [('contracts.fa_namer', 'NamerC._get')],
-    lean=['bridge/prod.lean', 'bridge/compl.lean', 'bridge/rev.lean'],
+    lean=['bridge/prod.lean', 'bridge/compl.lean', 'bridge/rev.lean', 'bridge/Link.lean'],
     bounded='bounded.c03', replayer='bounded.replay_fa',
     bounded_only=['Regexable.union', 'Regexable.concatenate', 'Regexable.kleene_star', 'EpsilonNFA.to_regex and helpers'],
     explanation='mixed: four operations proved deductively + Lean bridge; the three rational operations bounded only',
@@ -91,7 +91,7 @@ PROPS['C04'] = dict(
                 '(postcondition is the property wording). is_acyclic and get_accepted_words (order-dependent pruning, generator, termination) are bounded only. Mixed => other.'),
     level_note='Trusted: VC generator, z3, Lean+Mathlib, closure-induction schema instances, value assumptions; termination of get_accepted_words on finite languages is only observed on the bounded scope with a step budget.',
     pyvc=fa('ENFA.is_empty', 'ENFA.is_deterministic', 'NFA.is_deterministic', 'DFA.is_deterministic', 'ENFA.eclose', 'ENFA._get_next_states_from', 'ENFA._get_reachable_states', 'ENFA._get_states_leading_to_final') + [('contracts.fa_concrete', 'NTF.is_deterministic')],
-    lean=['bridge/empty.lean'],
+    lean=['bridge/empty.lean', 'bridge/Link.lean'],
     bounded='bounded.c04', replayer='bounded.replay_fa',
     bounded_only=['FiniteAutomaton.is_acyclic', 'FiniteAutomaton.get_accepted_words', '_get_states_leading_to_final', 'NFA.is_deterministic', 'DFA.is_deterministic'],
     explanation='mixed: is_empty and is_deterministic proved; acyclicity and enumeration bounded',
